@@ -9,6 +9,11 @@ CLAIMED = {
    note="Trusted: Coq kernel, extraction (ExtrOcamlBasic), OCaml driver, the correspondence harness (bounded by its generators). Python dict semantics abstracted to an association list in insertion order; object identity of the NULL sentinel abstracted to option.",
    technique="Coq refinement proof (trie -> finite map) + extracted-model differential correspondence",
    ref="6 C10"),
+ "C09": dict(
+   text="Proof (Coq, closed under the global context) for every add history with no bound on length or alphabet: match(url) is true exactly when some added hostname's label list is a whole-label suffix of the query host's (case-folded, punycode-decoded) label list; the answer depends only on the set of added hostnames; iteration yields exactly the minimal added hostnames, each once, and len is their number. Proved on the model of set_and_prune_if_shorter / longest_matching_prefix_value / tokenize_hostname; the model is tied to the code by differential execution (exhaustive add sequences over depth-3 hosts, all depth-4 queries in 5 URL forms; random realistic histories with upper case, punycode, IDN) and by leaf-level correspondence of urlsplit, the regexes and ural.utils.",
+   note="Trusted: Coq kernel, translator (regex ASTs, Unicode tables), extraction, driver, correspondence harness. The idna codec is an oracle table (env) filled from CPython per case; str.lower is the generated full Unicode table (final-sigma rule not modelled). Special hosts (IP literals, localhost) are outside the property and only covered by correspondence.",
+   technique="Coq invariant + abstraction proof (antichain trie = minimal covering set) + extracted-model differential correspondence",
+   ref="6 C09"),
 }
 
 NOT_YET = {}
